@@ -31,7 +31,7 @@ def field_attrs(rename, spelling):
     if rename == "empty":          # MC_C01!RenameOf("empty"): serde(rename = "")
         rename = ""
     elif rename in (None, "none", ""):
-        return {"merged": [], "split": ["#[serde(default)]"], "reversed": ['#[serde(alias = "zz")]'],
+        return {"merged": [], "split": ["#[serde(default)]"], "reversed": ['#[serde(alias = "zz")]'], "after_list": ['#[serde(bound(deserialize = ""))]'],
                 "extra": ["/// doc", '#[cfg(feature = "f")]']}.get(spelling, [])
     if rename in (None, "none"):
         raise ValueError(rename)
@@ -39,6 +39,7 @@ def field_attrs(rename, spelling):
     return {"merged": [f"#[serde({r})]"],
             "split": ["#[serde(default)]", f"#[serde({r})]"],
             "reversed": [f'#[serde(alias = "zz", {r})]'],
+            "after_list": [f'#[serde(bound(deserialize = ""), {r})]'],          # a nested-list argument before the rename, in the same attribute
             "extra": ["/// doc", f'#[serde(skip_serializing_if = "Option::is_none", {r})]', "#[allow(dead_code)]"]}[spelling]
 
 
@@ -59,6 +60,8 @@ def source(case):
     if case["kind"] == "struct":
         stacked = "#[serde(deny_unknown_fields)]\n" if case["spelling"] in ("split", "extra") else ""
         ra = f'{stacked}#[serde(rename_all = "{rule}")]\n' if rule != "none" else ""
+        if case["spelling"] == "after_list" and rule != "none":
+            ra = f'#[serde(bound(deserialize = ""), rename_all = "{rule}")]\n'
         return f"#[typeshare]\n{ra}pub struct Cont {{\n{fields}}}\n"
     er = case.get("enum_rule", "none")
     extra = f', rename_all = "{er}"' if er != "none" else ""
@@ -66,6 +69,8 @@ def source(case):
         extra += ', rename_all_fields = "%s"' % case["enum_fields_rule"]
     vstacked = '    #[serde(alias = "V")]\n' if case["spelling"] in ("split", "extra") else ""
     va = f'{vstacked}    #[serde(rename_all = "{rule}")]\n' if rule != "none" else ""
+    if case["spelling"] == "after_list" and rule != "none":
+        va = f'    #[serde(bound(deserialize = ""), rename_all = "{rule}")]\n'
     return (f'#[typeshare]\n#[serde(tag = "type", content = "content"{extra})]\npub enum Cont {{\n    Unit,\n{va}    Var {{\n{fields}    }},\n}}\n')
 
 
